@@ -451,8 +451,15 @@ UOPS = ['UNION', 'UNION ALL', 'INTERSECT', 'EXCEPT', 'INTERSECT ALL', 'EXCEPT AL
 
 def _union(rng):
     s = f'{select(rng, 1, True)} {rng.choice(UOPS)} {select(rng, 1, True)}'
-    if rng.random() < 0.4:
+    k = rng.random()
+    if k < 0.4:
         s += f' {rng.choice(UOPS)} {select(rng, 0, True)}'
+    elif k < 0.55:
+        # operands in parentheses: a nested set operation on the right / on the left / on both sides, a parenthesised plain select
+        a, b, c = select(rng, 0, True), select(rng, 0, True), select(rng, 0, True)
+        o1, o2 = rng.choice(UOPS), rng.choice(UOPS)
+        s = rng.choice([f'{a} {o1} ({b} {o2} {c})', f'({a} {o1} {b}) {o2} {c}', f'({a} {o1} {b}) {o2} ({c} {o1} {a})', f'{a} {o1} ({b})',
+                        f'{a} {o1} ({b} {o2} ({c} {o1} {a}))', f'{a} {o1} ({b} {o2} {c}) {o2} {a}'])
     r = rng.random()
     if r < 0.1:
         return f'({s})'
